@@ -342,9 +342,15 @@ def run_count(blt, opts, budget=10, want_ballots=True, lowprec=None, keepE=False
             if iters and f == 'meek':
                 saved_div = V.div
 
+                lastsig = [None]
+
                 def divw(a1, a2, round=None):
-                    if not blockopen[0]:
+                    # one snapshot per iteration: the keep-factor updates of one iteration leave tallies, quota and surplus untouched,
+                    # the next iteration's distribution changes them (an iteration that changes nothing ends the round as `stable')
+                    sig = (tuple(str(c.vote) for c in E.C), str(E.quota), str(E.surplus), str(E.residual))
+                    if not blockopen[0] or sig != lastsig[0]:
                         blockopen[0] = True
+                        lastsig[0] = sig
                         snap_iter()
                     return saved_div(a1, a2, round=round)
                 V.div = divw
